@@ -35,8 +35,5 @@ Theorem C16_rangeless_kept : forall o orc f rd ext,
   forall d, In d (rd ++ ext_diags ext) -> d_range d = None ->
   file_has (find_file_dir (file_word o) (f_leading f)) (d_code d) = false ->
   In d (lint_inner o orc f rd ext).
-Proof.
-  intros o orc f rd ext H d Hin Hr Hf. apply survivor_kept; try assumption.
-  rewrite rangeless_only_file by assumption. exact Hf.
-Qed.
+Proof. exact rangeless_kept. Qed.
 Print Assumptions C16_rangeless_kept.
